@@ -146,6 +146,13 @@ func genC05(rt *rapid.T) c05Case {
 	return c
 }
 
+func c05OtherPayload(warm bool) []byte {
+	if warm {
+		return []byte(`{"statement":"B","verified-elsewhere":true}`)
+	}
+	return []byte(`{"statement":"B"}`)
+}
+
 // maxMatching: principals -> distinct keys among the valid signer keys.
 func maxMatching(prins []c05Prin, valid map[int]bool) int {
 	matchKey := map[int]int{} // key -> principal index
@@ -190,7 +197,11 @@ func runC05(s *kit.Session, c c05Case) *kit.Failure {
 	var env *sslibdsse.Envelope
 	if !c.NoEnv {
 		payload := []byte(`{"statement":"A"}`)
-		other := []byte(`{"statement":"B"}`)
+		// the payload the lifted signatures were made over. It differs between
+		// warm and cold cases so that a cold case's lifted signatures are never
+		// validly verified anywhere in the process: every case then fails or
+		// passes on its own, whatever ran before it (replayable from a fresh process).
+		other := c05OtherPayload(c.Warm)
 		env = &sslibdsse.Envelope{PayloadType: dsse.PayloadType, Payload: base64.StdEncoding.EncodeToString(payload), Signatures: []sslibdsse.Signature{}}
 		for _, sg := range c.Sigs {
 			k := kit.Key(sg.Key)
@@ -218,7 +229,7 @@ func runC05(s *kit.Session, c c05Case) *kit.Failure {
 	}
 	if c.Warm && env != nil && len(c.Prins) > 0 {
 		// the source of the lifted signatures: valid there, must not become valid here
-		src := &sslibdsse.Envelope{PayloadType: dsse.PayloadType, Payload: base64.StdEncoding.EncodeToString([]byte(`{"statement":"B"}`))}
+		src := &sslibdsse.Envelope{PayloadType: dsse.PayloadType, Payload: base64.StdEncoding.EncodeToString(c05OtherPayload(true))}
 		for i, sg := range c.Sigs {
 			if sg.Lifted {
 				src.Signatures = append(src.Signatures, env.Signatures[i])
